@@ -43,6 +43,10 @@ def gen_points(spec):
         X = base[rng.integers(0, len(base), n)]
         if spec["seed"] % 2:
             X = np.round(rng.random((n, d)), 1)
+    elif g == "all-equal":
+        X = np.repeat(rng.random((1, d)), n, axis=0)  # every row is the same point
+        if spec["seed"] % 2:
+            X[: max(1, n // 4)] = rng.random((max(1, n // 4), d))  # ... except a block (which 'one-point' weights switch off)
     elif g == "constant-coord":
         X = rng.random((n, d))
         X[:, rng.integers(0, d)] = 0.37
@@ -62,6 +66,13 @@ def gen_weights(spec, n, rng):
     if f == "lognormal":
         lw = rng.normal(0, spec["sigma"], n)
         return np.exp(lw - lw.max())
+    if f == "one-point":
+        # weight only on the tail of the data set (for the 'all-equal' geometry: on copies of one single point)
+        w = np.zeros(n)
+        w[max(1, n // 4):] = rng.random(n - max(1, n // 4)) + 1e-6
+        if w.sum() == 0:
+            w[-1] = 1.0
+        return w
     w = rng.random(n) + 1e-6
     w[rng.random(n) < 0.5] = 0.0
     if w.sum() == 0:
@@ -73,9 +84,9 @@ def gen_weights(spec, n, rng):
 def base_spec(draw, max_n=1000):
     d = draw(st.integers(1, 6))
     return {"d": d, "n": draw(st.one_of(st.integers(2 * d, 6 * d + 4), st.integers(2 * d, 200), st.integers(2 * d, max_n))),
-            "geometry": draw(st.sampled_from(["separated", "overlapping", "nested", "duplicated", "constant-coord", "scaled", "far"])),
+            "geometry": draw(st.sampled_from(["separated", "overlapping", "nested", "duplicated", "constant-coord", "scaled", "far", "all-equal"])),
             "logscale": draw(st.sampled_from([-8.0, -3.0, 0.0, 3.0, 6.0])),
-            "wfam": draw(st.sampled_from(["uniform", "u01", "lognormal", "halfzero"])),
+            "wfam": draw(st.sampled_from(["uniform", "u01", "lognormal", "halfzero", "one-point"])),
             "sigma": draw(st.sampled_from([1.0, 5.0, 30.0])), "seed": draw(st.integers(0, 2**31 - 1))}
 
 
@@ -157,7 +168,8 @@ def exec_gmm(case):
     check_gmm(g, X, K, case["cov"], "GaussianMixture.fit")
     # the same model object fitted to other data first must give the same answer as a fresh object (no state carried between fits)
     g2 = GaussianMixture(n_components=K, covariance_type=case["cov"], n_init=case["n_init"], random_state=case["rs"])
-    X2 = np.random.default_rng(case["seed"] + 1).random((max(2 * K, 6), X.shape[1])) * 3.0 - 1.0
+    d2 = [X.shape[1], max(1, X.shape[1] - 1), X.shape[1] + 1][case["seed"] % 3]
+    X2 = np.random.default_rng(case["seed"] + 1).random((max(2 * K, 6), d2)) * 3.0 - 1.0
     lib_call(g2.fit, X2, what="GaussianMixture.fit(other data)")
     np.random.seed(case["seed"] % 2**31)
     # ... and the input representation must not matter either: nested lists / Fortran-ordered arrays in place of C-ordered arrays
@@ -245,7 +257,8 @@ def exec_hgm(case):
     # no state carried between fits of one model object
     h2 = HierarchicalGaussianMixture(n_init=1, max_iterations=case["max_iterations"], min_points=mp, threshold_modifier=case["thr"],
                                      covariance_type=case["cov"], verbose=False, normalize=case["normalize"])
-    X2 = np.random.default_rng(case["seed"] + 1).random((max(4 * d + 2, 10), d)) * 5.0 - 2.0
+    d2 = [d, max(1, d - 1), d + 1][case["seed"] % 3]  # the earlier data may have another dimension (defaults derived from it must not stick)
+    X2 = np.random.default_rng(case["seed"] + 1).random((max(4 * d2 + 2, 10), d2)) * 5.0 - 2.0
     lib_call(h2.fit, X2, what="HierarchicalGaussianMixture.fit(other data)")
     np.random.seed(case["seed"] % 2**31)
     Xr, swr, how = alt_repr(X, sw, case["seed"] if case["seed"] % 3 != 1 else 2)  # (labels are compared exactly: no Fortran order here)
